@@ -109,8 +109,8 @@ func genWriter(r *runner.Rand, faults bool, around []int) []WStep {
 }
 
 var opsFor = map[string][]string{
-	"ring":  {"Write", "Write", "Write", "WriteString", "WriteByte", "Read", "Read", "ReadByte", "Peek", "Discard", "Bytes", "ReadFrom", "WriteTo", "Reset", "FillExact"},
-	"ering": {"Write", "Write", "Write", "WriteString", "WriteByte", "Read", "Read", "ReadByte", "Peek", "Discard", "Bytes", "ReadFrom", "WriteTo", "Reset", "Done", "FillExact"},
+	"ring":  {"Write", "Write", "Write", "WriteString", "WriteByte", "Read", "Read", "ReadByte", "Peek", "Discard", "Bytes", "ReadFrom", "WriteTo", "Reset", "FillExact", "WriteOwn"},
+	"ering": {"Write", "Write", "Write", "WriteString", "WriteByte", "Read", "Read", "ReadByte", "Peek", "Discard", "Bytes", "ReadFrom", "WriteTo", "Reset", "Done", "FillExact", "WriteOwn"},
 	"ebuf":  {"Write", "Write", "Write", "Writev", "Writev", "Read", "Read", "Peek", "Peek", "Discard", "Discard", "ReadFrom", "WriteTo", "Reset", "Release"},
 	"llist": {"PushBack", "PushBack", "PushBack", "PushFront", "Append", "Pop", "PopPushFront", "Read", "Read", "Peek", "PeekWithBytes", "Discard", "Discard", "ReadFrom", "WriteTo", "Reset"},
 }
@@ -163,6 +163,11 @@ func Generate(seed uint64, prop, tier string) *Plan {
 			op.N = sizePick(r, around)
 		case "PopPushFront":
 			op.N = r.Intn(1 << 16)
+		case "WriteOwn":
+			op.N = sizePick(r, around)
+			if r.Chance(1, 3) {
+				op.N = -1 // everything buffered
+			}
 		case "Read", "Peek", "PeekWithBytes":
 			op.N = sizePick(r, around)
 			if op.K != "Read" && r.Chance(1, 6) {
